@@ -107,6 +107,123 @@ def translate(name, body, arg, routine, sym_this, sym_arg):
         return "Definition %s_call (nl nc bnl bnc : nat) : symm_call := %s." % (name, rec)
     raise Problem("unknown routine")
 
+
+# ------------------------------------------------------------------------------------------------------------------
+# level-1 / level-2 packed call sites: daxpy dcopy dscal ddot dnrm2 DGER DSPMV
+L1SITES = [  # (coq name, file, header regex (group 1 = parameter list), routine, class of the receiver)
+  ("Vector_plus",   "vector.h", r"Vector\s+Vector::operator\+\s*\((const Vector&[^)]*)\)\s*const\s*\{", "daxpy", "Vector"),
+  ("Vector_minus",  "vector.h", r"Vector\s+Vector::operator-\s*\((const Vector&[^)]*)\)\s*const\s*\{", "daxpy", "Vector"),
+  ("Vector_iadd",   "vector.h", r"void\s+Vector::operator\+=\s*\(([^)]*)\)\s*\{", "daxpy", "Vector"),
+  ("Vector_isub",   "vector.h", r"void\s+Vector::operator-=\s*\(([^)]*)\)\s*\{", "daxpy", "Vector"),
+  ("Vector_dot",    "vector.h", r"double\s+Vector::operator\*\s*\((const Vector&[^)]*)\)\s*const\s*\{", "ddot", "Vector"),
+  ("Vector_scaled", "vector.h", r"Vector\s+Vector::operator\*\s*\((const double[^)]*)\)\s*const\s*\{", "dscal", "Vector"),
+  ("Vector_iscale", "vector.h", r"void\s+Vector::operator\*=\s*\(([^)]*)\)\s*\{", "dscal", "Vector"),
+  ("Vector_norm",   "vector.h", r"double\s+Vector::norm\s*\(([^)]*)\)\s*const\s*\{", "dnrm2", "Vector"),
+  ("Vector_outer",  "../src/vector.cpp", r"Matrix\s+Vector::outer_product\s*\(([^)]*)\)\s*const\s*\{", "DGER", "Vector"),
+  ("Matrix_getcol", "matrix.h", r"Vector\s+Matrix::getcol\s*\(([^)]*)\)\s*const\s*\{", "dcopy", "Matrix"),
+  ("Matrix_getlin", "matrix.h", r"Vector\s+Matrix::getlin\s*\(([^)]*)\)\s*const\s*\{", "dcopy", "Matrix"),
+  ("Matrix_setcol", "matrix.h", r"void\s+Matrix::setcol\s*\(([^)]*)\)\s*\{", "dcopy", "Matrix"),
+  ("Matrix_setlin", "matrix.h", r"void\s+Matrix::setlin\s*\(([^)]*)\)\s*\{", "dcopy", "Matrix"),
+  ("Matrix_submat", "matrix.h", r"Matrix\s+Matrix::submat\s*\(([^)]*)\)\s*const\s*\{", "dcopy", "Matrix"),
+  ("Matrix_iadd",   "matrix.h", r"void\s+Matrix::operator\+=\s*\(([^)]*)\)\s*\{", "daxpy", "Matrix"),
+  ("Matrix_isub",   "matrix.h", r"void\s+Matrix::operator-=\s*\(([^)]*)\)\s*\{", "daxpy", "Matrix"),
+  ("Matrix_dot",    "matrix.h", r"double\s+Matrix::dot\s*\(([^)]*)\)\s*const\s*\{", "ddot", "Matrix"),
+  ("Sym_iadd",      "symmatrix.h", r"void\s+SymMatrix::operator\+=\s*\(([^)]*)\)\s*\{", "daxpy", "Sym"),
+  ("Sym_isub",      "symmatrix.h", r"void\s+SymMatrix::operator-=\s*\(([^)]*)\)\s*\{", "daxpy", "Sym"),
+  ("Sym_mulv",      "symmatrix.h", r"Vector\s+SymMatrix::operator\*\s*\((const Vector&[^)]*)\)\s*const\s*\{", "DSPMV", "Sym"),
+]
+SIZE_OF = {"Vector": "nl", "Matrix": "(nl * nc)", "Sym": "(nl * (nl + 1) / 2)"}
+
+def nat_expr(e, cls, arg, env, idx):
+    """C++ size/offset expression -> Gallina nat expression over nl nc bnl bnc and the index parameters"""
+    e = e.strip()
+    if arg:
+        e = re.sub(r"\b%s\.nlin\(\)" % re.escape(arg), "bnl", e); e = re.sub(r"\b%s\.ncol\(\)" % re.escape(arg), "bnc", e)
+        e = re.sub(r"\b%s\.size\(\)" % re.escape(arg), "bsz", e)
+    e = re.sub(r"\bnlin\(\)", "nl", e); e = re.sub(r"\bncol\(\)", "nl" if cls == "Sym" else "nc", e); e = re.sub(r"\bsize\(\)", SIZE_OF[cls], e)
+    e = re.sub(r"\bsizet_to_int\b", "", e)
+    for k, v in env.items(): e = re.sub(r"\b%s\b" % re.escape(k), "(%s)" % v, e)
+    for tok in re.findall(r"[A-Za-z_]\w*", e):
+        if tok not in ("nl", "nc", "bnl", "bnc", "bsz") and tok not in idx: raise Problem("unknown identifier `%s` in `%s`" % (tok, e))
+    if re.search(r"[^\w\s()+*/]", e): raise Problem("unsupported operator in `%s`" % e)
+    return "(%s)" % e
+
+def translate_l1(name, body, plist, routine, cls):
+    from t_accessors import params
+    body = live_branch(body)
+    ps = params(plist)
+    idx = [n for n, w in ps if w != "obj"]; objs = [n for n, w in ps if w == "obj"]
+    arg = objs[0] if objs else None
+    env = {}; copies = {}; result = None; zeroed = False; loopvar = None
+    stmts = [x.strip() for x in re.split(r"[;{}]", body)]
+    calls = []
+    for st in stmts:
+        m = re.match(r"^const\s+BLAS_INT\s+(\w+)\s*=\s*(.*)$", st, re.S)
+        if m: env[m.group(1)] = nat_expr(m.group(2), cls, arg, env, idx); continue
+        m = re.match(r"^(Vector|Matrix|SymMatrix)\s+(\w+)\s*\(\s*\*this\s*,\s*DEEP_COPY\s*\)$", st)
+        if m: copies[m.group(2)] = "DeepCopyOfThis"; continue
+        m = re.match(r"^(Vector|Matrix)\s+(\w+)\s*\((.*)\)$", st)
+        if m and result is None and "DEEP_COPY" not in st: result = m.group(2); continue
+        m = re.match(r"^for\s*\(\s*Index\s+(\w+)\s*=\s*0\s*$", st)
+        if m: loopvar = m.group(1); continue
+        if result and re.match(r"^%s\.set\(\s*0\.0\s*\)$" % re.escape(result), st): zeroed = True; continue
+        m = re.search(r"(?:BLAS\(\s*(\w+)\s*,\s*\w+\s*\)|\b(DGER|DSPMV))\s*\((.*)\)\s*$", st, re.S)
+        if m: calls.append(((m.group(1) or m.group(2)), split_args(m.group(3))))
+    calls = [c for c in calls if c[0] == routine]
+    if len(calls) != 1: raise Problem("%d %s calls found" % (len(calls), routine))
+    a = calls[0][1]
+    allidx = idx + ([loopvar] if loopvar else [])
+    def n(x): return nat_expr(x, cls, arg, env, allidx)
+    def ptr(x):
+        x = x.replace(" ", "")
+        m = re.match(r"^(?:(\w+)\.)?data\(\)(?:\+(.*))?$", x)
+        if not m: raise Problem("unknown pointer `%s`" % x)
+        o = m.group(1)
+        b = "This" if o is None else "Arg" if o == arg else copies.get(o) or ("Res" if o == result else None)
+        if b is None: raise Problem("unknown buffer `%s`" % x)
+        return b, (n(m.group(2)) if m.group(2) else "0")
+    def unit(x):
+        if x.replace(" ", "") != "1": raise Problem("non-unit increment `%s`" % x)
+    sig = "(nl nc bnl bnc bsz%s : nat)" % ("".join(" " + i for i in allidx))
+    if routine == "daxpy":
+        if len(a) != 6: raise Problem("unexpected daxpy argument list %s" % a)
+        unit(a[3]); unit(a[5]); (bx, ox), (by, oy) = ptr(a[2]), ptr(a[4])
+        if ox != "0" or oy != "0": raise Problem("offset in daxpy")
+        al = a[1].replace(" ", "")
+        if al not in ("1", "1.0", "-1", "-1.0"): raise Problem("daxpy alpha `%s`" % al)
+        return "Definition %s_call %s : axpy_call := {| a_n := %s; a_alpha := %s; a_x := %s; a_y := %s |}." % (name, sig, n(a[0]), "1%Z" if al[0] != "-" else "(-1)%Z", bx, by)
+    if routine == "ddot":
+        if len(a) != 5: raise Problem("unexpected ddot argument list %s" % a)
+        unit(a[2]); unit(a[4]); (bx, ox), (by, oy) = ptr(a[1]), ptr(a[3])
+        if ox != "0" or oy != "0": raise Problem("offset in ddot")
+        return "Definition %s_call %s : dot_call := {| d_n := %s; d_x := %s; d_y := %s |}." % (name, sig, n(a[0]), bx, by)
+    if routine == "dnrm2":
+        if len(a) != 3: raise Problem("unexpected dnrm2 argument list %s" % a)
+        unit(a[2]); bx, ox = ptr(a[1])
+        if ox != "0": raise Problem("offset in dnrm2")
+        return "Definition %s_call %s : dot_call := {| d_n := %s; d_x := %s; d_y := %s |}." % (name, sig, n(a[0]), bx, bx)
+    if routine == "dscal":
+        if len(a) != 4: raise Problem("unexpected dscal argument list %s" % a)
+        unit(a[3]); bx, ox = ptr(a[2])
+        if ox != "0" or not re.match(r"^\w+$", a[1].strip()): raise Problem("unexpected dscal arguments")
+        return "Definition %s_call %s : scal_call := {| s1_n := %s; s1_x := %s |}." % (name, sig, n(a[0]), bx)
+    if routine == "dcopy":
+        if len(a) != 5: raise Problem("unexpected dcopy argument list %s" % a)
+        (bs, os_), (bd, od) = ptr(a[1]), ptr(a[3])
+        return "Definition %s_call %s : copy_call := {| k_n := %s; k_src := %s; k_soff := %s; k_sinc := %s; k_dst := %s; k_doff := %s; k_dinc := %s |}." % (
+            name, sig, n(a[0]), bs, os_, n(a[2]), bd, od, n(a[4]))
+    if routine == "DGER":
+        if len(a) != 9 or a[2].strip() != "1.0": raise Problem("unexpected DGER argument list %s" % a)
+        unit(a[4]); unit(a[6]); (bx, ox), (by, oy), (ba, oa) = ptr(a[3]), ptr(a[5]), ptr(a[7])
+        if ba != "Res" or not zeroed or ox != "0" or oy != "0" or oa != "0": raise Problem("DGER must accumulate into the zeroed result")
+        return "Definition %s_call %s : ger_call := {| g_m := %s; g_n := %s; g_x := %s; g_y := %s; g_lda := %s |}." % (name, sig, n(a[0]), n(a[1]), bx, by, n(a[8]))
+    if routine == "DSPMV":
+        if len(a) != 9 or a[0].strip() != "CblasUpper" or a[2].strip() != "1.0" or a[6].strip() != "0.0": raise Problem("unexpected DSPMV argument list %s" % a)
+        unit(a[5]); unit(a[8]); (bp, op), (bx, ox), (by, oy) = ptr(a[3]), ptr(a[4]), ptr(a[7])
+        if by != "Res" or op != "0" or ox != "0" or oy != "0": raise Problem("unexpected DSPMV buffers")
+        return "Definition %s_call %s : spmv_call := {| p_n := %s; p_ap := %s; p_x := %s |}." % (name, sig, n(a[1]), bp, bx)
+    raise Problem("unknown routine")
+
 def generate(repo_root, out_dir):
     problems = []; defs = []
     inc = os.path.join(repo_root, "OpenMEEGMaths", "include")
@@ -117,12 +234,27 @@ def generate(repo_root, out_dir):
             defs.append(translate(name, body, m.group(1), routine, st, sa))
         except Problem as e:
             problems.append("%s (%s): %s" % (name, f, e)); defs.append("(* %s: NOT TRANSLATED: %s *)" % (name, e))
+    for name, f, hre, routine, cls in L1SITES:
+        try:
+            src = strip_comments(open(os.path.normpath(os.path.join(inc, f))).read())
+            m, body = find_body(src, hre, 0)
+            defs.append(translate_l1(name, body, m.group(1), routine, cls))
+        except Problem as e:
+            problems.append("%s (%s): %s" % (name, f, e)); defs.append("(* %s: NOT TRANSLATED: %s *)" % (name, e))
     txt = ["(* GENERATED by translators/t_blascalls.py from OpenMEEGMaths/include/matrix.h and src/symmatrix.cpp -- do not edit.",
            "   The DGEMM / DGEMV / DSYMM call of each method as a function of the operand shapes: nl nc = receiver (a SymMatrix has",
            "   nc = nl), bnl bnc = argument.  Buffers: This / Arg = the operands' own buffers, CopyOfThis / CopyOfArg = the dense",
            "   copy `Matrix D(...)` of a symmetric operand.  c_rows/c_cols (v_len) = shape of the allocated result;",
            "   v_zero_init = the result vector is cleared before the call. *)",
-           "Inductive bufid := This | Arg | CopyOfThis | CopyOfArg.",
+           "From Coq Require Import ZArith.",
+           "Inductive bufid := This | Arg | CopyOfThis | CopyOfArg | DeepCopyOfThis | Res.",
+           "(* level 1: unit increments and zero offsets except dcopy; bsz = size() of the argument; index parameters by name *)",
+           "Record axpy_call := { a_n : nat; a_alpha : Z; a_x : bufid; a_y : bufid }.",
+           "Record dot_call := { d_n : nat; d_x : bufid; d_y : bufid }.",
+           "Record scal_call := { s1_n : nat; s1_x : bufid }.",
+           "Record copy_call := { k_n : nat; k_src : bufid; k_soff : nat; k_sinc : nat; k_dst : bufid; k_doff : nat; k_dinc : nat }.",
+           "Record ger_call := { g_m : nat; g_n : nat; g_x : bufid; g_y : bufid; g_lda : nat }.",
+           "Record spmv_call := { p_n : nat; p_ap : bufid; p_x : bufid }.",
            "Record gemm_call := { c_ta : bool; c_tb : bool; c_m : nat; c_n : nat; c_k : nat; c_a : bufid; c_lda : nat; c_b : bufid; c_ldb : nat; c_ldc : nat; c_rows : nat; c_cols : nat }.",
            "Record gemv_call := { v_ta : bool; v_m : nat; v_n : nat; v_a : bufid; v_lda : nat; v_len : nat; v_zero_init : bool }.",
            "Record symm_call := { s_left : bool; s_m : nat; s_n : nat; s_a : bufid; s_lda : nat; s_b : bufid; s_ldb : nat; s_ldc : nat; s_rows : nat; s_cols : nat }.",
